@@ -85,11 +85,17 @@ def render_date(spec: dict):
     raise ValueError(style)
 
 
+class QuotaExceeded(HttpErr, __import__("redress").RateLimitError):
+    """Rate limited according to the SDK's own marker type; no numeric status at all."""
+
+
 def build_exc(case: dict, value):
     e = HttpErr("rate limited")
     via = case.get("status_via", "status")
     status = case.get("status", 429)
-    if via == "args":
+    if via == "marker":
+        e = QuotaExceeded("rate limited")
+    elif via == "args":
         e = HttpErr("rate limited", status)
     else:
         setattr(e, via, status)
@@ -349,8 +355,8 @@ def nonstring_st():
 
 @st.composite
 def parse_case(draw):
-    case: dict = {"shape": draw(st.sampled_from(SHAPES)), "key": draw(st.sampled_from(KEYS)), "status_via": draw(st.sampled_from(["status", "status", "status_code", "code", "args"]))}
-    if gen.chance(draw, 0.05, "c20-non429"):
+    case: dict = {"shape": draw(st.sampled_from(SHAPES)), "key": draw(st.sampled_from(KEYS)), "status_via": draw(st.sampled_from(["status", "status", "status_code", "code", "args", "marker"]))}
+    if case["status_via"] != "marker" and gen.chance(draw, 0.05, "c20-non429"):
         case["status"] = draw(st.sampled_from([500, 503, 400, 200]))
     kind = draw(st.sampled_from(["digits", "digits", "digits", "odd", "date", "date", "neardate", "garbage", "nonstring"]))
     if kind in ("date", "neardate"):
